@@ -94,6 +94,31 @@ func checkpointScenario(c *sup.Ctx, r *rng.R, props []string) {
 	c.Sample(map[string]any{"writers": writers, "restarts": restarts, "disk": disk, "result": res})
 }
 
+func multiCheckpointScenario(c *sup.Ctx, r *rng.R, props []string) {
+	disk := c.Local%2 == 1
+	m, err := conc.OpenMulti(c.Tmp, disk, 1+(c.Local/2)%2, 2)
+	if err != nil {
+		c.Incon("cannot open bucket: " + err.Error())
+		return
+	}
+	defer m.Close()
+	rounds := 2 + r.Intn(4)
+	res, msg, detail := conc.MultiCheckpointRun(m, rounds, r)
+	c.Count("multi_collection_checkpoint_scenarios", 1)
+	c.Count("multi_collection_feed_runs", int64(res.Runs))
+	c.Count("multi_collection_events_delivered", int64(res.Delivered))
+	c.Cell(fmt.Sprintf("checkpoint-multi|rounds=%d|%s", rounds, ifStr(disk, "disk", "mem")))
+	if msg != "" {
+		kind, text := splitKind(msg)
+		if kind == "setup" {
+			c.Incon(text)
+		} else {
+			c.Viol(props, "checkpoint-multi|"+kind, text, detail)
+		}
+	}
+	c.Sample(map[string]any{"disk": disk, "rounds": rounds, "result": res})
+}
+
 func init() {
 	mk := func(prop, name string, q, t int, race bool, f func(*sup.Ctx, *rng.R, []string)) sup.Part {
 		return sup.Part{Name: name, Race: race, Timeout: 120 * time.Second, Count: func(tier string) int { return tierN(tier, q, t) },
@@ -121,11 +146,12 @@ func init() {
 	})
 	sup.Register(&sup.Check{
 		Prop: "C15", Level: "exploration",
-		Rule: "1-6 writers (regular API) run while a feed with a checkpoint prefix in resume mode is started through alternating handles, allowed a PRNG-chosen number of callbacks (the callback parks on a channel so events stay queued), stopped by its terminator, its checkpoint document read, 3-8 times; then a Dump resume run catches up; oracle: the checkpoint's last_seq never exceeds the highest CAS the feed delivered so far, the final version (read-back CAS) of every key is in the union of the runs' deliveries, and the newest version delivered for a key describes its final state (deletion iff it has no body, the same body bytes); while the feed is stopped, keys of their own are re-created over tombstones that earlier runs already delivered and checkpointed (Add, AddRaw, WriteCas 0, Set, WriteResurrectionWithXattrs, Update) and never touched again, so only a resume can deliver their final version; schedule noise at the commit->post hook; also under the race detector; cell = (writers, restarts, stops while writers active, bucket type)",
+		Rule: "1-6 writers (regular API) run while a feed with a checkpoint prefix in resume mode is started through alternating handles, allowed a PRNG-chosen number of callbacks (the callback parks on a channel so events stay queued), stopped by its terminator, its checkpoint document read, 3-8 times; then a Dump resume run catches up; oracle: the checkpoint's last_seq never exceeds the highest CAS the feed delivered so far, the final version (read-back CAS) of every key is in the union of the runs' deliveries, and the newest version delivered for a key describes its final state (deletion iff it has no body, the same body bytes); while the feed is stopped, keys of their own are re-created over tombstones that earlier runs already delivered and checkpointed (Add, AddRaw, WriteCas 0, Set, WriteResurrectionWithXattrs, Update) and never touched again, so only a resume can deliver their final version; (two collections) one bucket-level feed over two collections with one ID and checkpoint prefix is run, stopped after a PRNG-chosen number of callbacks and resumed while both collections are written between the runs: every document of either collection is delivered by some run and each collection's checkpoint stays at or below what was delivered for it; schedule noise at the commit->post hook; also under the race detector; cell = (writers, restarts, stops while writers active, bucket type)",
 		Assumptions: []string{"the checkpoint document itself is excluded from the must-deliver set (it is written by the feed)", "stops are sampled at PRNG-chosen callback counts, not at every queue position"},
 		Parts: []sup.Part{
 			mk("C15", "checkpoint-restarts", 1500, 30000, false, checkpointScenario),
 			mk("C15", "checkpoint-restarts-race", 60, 2400, true, checkpointScenario),
+			mk("C15", "checkpoint-restarts-two-collections", 300, 6000, false, multiCheckpointScenario),
 		},
 		RaceOwner: func(string) bool { return false },
 		Floor: func(tier string, m *sup.Merged) string {
